@@ -3,7 +3,7 @@ import itertools
 from ..core import Family
 from .. import plevel, plevel_global
 
-PROPERTY_FILES = ["C05", "C05_Global", "C05_Logic", "C05_Arith"]
+PROPERTY_FILES = ["C05", "C05_Neq", "C05_Global", "C05_Logic", "C05_Arith"]
 TRUSTED_BASE = [
     "Coq 8.16.1 kernel (coqc full .vo build)",
     "hand-written model of props/*.rs, views.rs, agenda.rs, search::propagate (coq/Model/{Dom,Views,PropDefs,Propagate}.v, Model/Props/*.v): modelled, not verified; tied by this run's differential",
@@ -41,7 +41,7 @@ def gen_exhaustive(tier, rng):
     templates3 = ["add x0 x1 x2", "sub x0 x1 x2", "add x0 opp(x1) x2", "add plus(x0,1) times(x1,2) x2", "sum x0,x1 x2",
                   "lineq 1,1,-1 x0,x1,x2 0", "lineq 2,3,-1 x0,x1,x2 1", "linle 2,-3,1 x0,x1,x2 1", "linne 1,-1,2 x0,x1,x2 0",
                   "lineq 2,0,-3 x0,x1,x2 1"]
-    templates2 = ["leq x0 x1", "lt x0 x1", "gt x0 x1", "geq x0 x1", "eq x0 x1", "leq times(x0,2) x1", "leq times(x0,-2) plus(x1,1)",
+    templates2 = ["neq x0 x1", "neq plus(x0,1) x1", "neq x0 c:1", "neq opp(x0) times(x1,2)", "leq x0 x1", "lt x0 x1", "gt x0 x1", "geq x0 x1", "eq x0 x1", "leq times(x0,2) x1", "leq times(x0,-2) plus(x1,1)",
                   "eq times(x0,2) x1", "eq opp(x0) next(x1)", "lineq 2,3 x0,x1 1", "lineq -2,3 x0,x1 -1", "linle -2,-3 x0,x1 -1",
                   "linne 2,-1 x0,x1 0", "leq x0 c:0", "leq c:0 x1", "eq x0 c:1", "lineq 2,2 x0,x1 3", "linle 0,0 x0,x1 -1"]
     for t in templates3:
